@@ -40,7 +40,7 @@ def build(H, tier, seed):
 def standins(tier, seed):
     n = 4 if tier == 'quick' else 25
     cfgs = [dict(p=2, q=0, r=1), dict(name='3DPGA'), dict(p=2, graded=True), dict(p=3, start_index=0), dict(name='2DPGA'),
-            dict(p=1, q=1, r=1, graded=True)]
+            dict(p=1, q=1, r=1, graded=True), dict(p=4, graded=True)]
     if tier != 'quick':
         cfgs += [dict(p=4), dict(p=3, q=1), dict(name='STAP'), dict(p=3, q=0, r=1, graded=True),
                  dict(p=3, basis=['e', 'e1', 'e2', 'e3', 'e12', 'e31', 'e23', 'e123'])]
